@@ -1,6 +1,6 @@
 SPECIFICATION Spec
 CONSTANTS
-  MaxLen = 5
+  MaxLen = 6
   MaxDepth = 2
   VNames = {"a", "b"}
   LNames = {"y"}
